@@ -151,7 +151,11 @@ class DSDIFFInfo(StreamInfo):
                     if len(data) < 4:
                         raise InvalidChunk("Not enough data in CMPR chunk")
                     compression_id, = struct.unpack('>4s', data[:4])
-                    self.compression = compression_id.decode('ascii').rstrip()
+                    try:
+                        self.compression = \
+                            compression_id.decode('ascii').rstrip()
+                    except UnicodeDecodeError:
+                        raise InvalidChunk("Invalid CMPR chunk")
 
         if self.sample_rate < 0:
             raise error("Invalid sample rate")
